@@ -137,6 +137,13 @@ class SQLDumper(DumperBase):
                     # Table Schema allows a single field name
                     update_keys = [update_keys]
             self.passed_rows = collections.deque()
+            # The bloom filter compares keys by their text: only integer and string keys
+            # read back from the DB with the text they were written with
+            use_bloom_filter = self.use_bloom_filter
+            if update_keys:
+                key_types = dict((f['name'], f['type']) for f in schema_descriptor['fields'])
+                if any(key_types.get(key) not in ('integer', 'string') for key in update_keys):
+                    use_bloom_filter = False
             logging.info('Writing to DB %s -> %s (mode=%s, keys=%s)',
                          resource_name, table_name, mode, update_keys)
             return map(self.get_output_row,
@@ -147,7 +154,7 @@ class SQLDumper(DumperBase):
                            keyed=True, as_generator=True,
                            update_keys=update_keys,
                            buffer_size=self.batch_size,
-                           use_bloom_filter=self.use_bloom_filter,
+                           use_bloom_filter=use_bloom_filter,
                        ))
 
     def get_output_row(self, written):
